@@ -3,23 +3,30 @@ import Proofs.Lemmas.Fortran
 import Proofs.Lemmas.FortranKinds
 import Proofs.Lemmas.FortranLoop
 import Proofs.Lemmas.FortranWrapper
+import Proofs.Lemmas.FortranSolve
 import Proofs.Lemmas.FortranEval
 import Proofs.Lemmas.FortranText
 /-
 C07 — The Fortran back-end computes what the Python back-end computes.      (PARTIAL — see the end of this comment)
 
 Property theorems only (helper lemmas are in `Proofs/Lemmas/Fortran*.lean`), about the model M5
-(`FsicModel/Fortran.lean`) of `fsic/fortran.py` and M1 (`FsicModel/Solver.lean`) of the Python solver.
+(`FsicModel/Fortran.lean`) of `fsic/fortran.py` **as repaired by c07-fix1..4** and M1 (`FsicModel/Solver.lean`) of
+the Python solver.
 
   numbering            fortran_numbering, fortran_numbers_distinct
-  index rewrite        fortran_index_rewrite (text), fortran_index_rewrite_cell (same storage cell)
-  expressions          kind_safe_agree, kind_safe_assign_agree      — for every interpretation of the real operators
-                       full_agree_false_at_half, full_agree_false_at_tenth — the unguarded statement is FALSE
-  solve_t loop         fortran_loop_eq_python_loop; fortran_solveT_eq_python_partial (whole wrapper vs BaseModel.solve_t)
-                       fortran_solveT_false_at_shifted_check / _max_iter_zero / _infeasible_period — the unguarded
-                       statement is FALSE of the current code at three witnesses; fortran_check_rows_shifted
-  solve                fortran_solve_eq_fold
+  index rewrite        fortran_index_rewrite, rewrite_expression_text (text), fortran_index_rewrite_cell (same cell),
+                       fortran_check_rows_aligned (the convergence rows passed are the variables Python checks)
+  expressions          kind_safe_agree, kind_safe_assign_agree, evaluate_agree — every interpretation of the real operators
+                       full_agree_false_at_half, full_agree_false_at_tenth — the statement without KindSafe is FALSE
+                       (integer division, single-precision literals: open known findings)
+  solve_t              fortran_loop_eq_python_loop; fortran_solveT_eq_python (whole wrapper = BaseModel.solve_t)
+  solve                fortran_solve_eq_fold; fortran_solve_eq_python_solveList; fortran_solve_eq_python_solve
   codes                error_codes_consistent (decide over tables reflected from /repo on every run)
+
+History: before c07-fix1..4 the solve_t statement needed three guards excluding real inputs (convergence rows passed
+0-based, `max_iter ≤ 0` leaving error code −1, infeasible periods raising FortranEngineError) and carried three
+`…_false_at_…` witnesses; the repaired code satisfies the unguarded statement and the witnesses became the positive
+`example`s after `fortran_solveT_eq_python`.
 
 Outside the model (why the claim is partial): what gfortran's generated code computes in floating point, libm
 (`exp`, `log`, `pow`; also `real ** integer`, which Fortran evaluates by repeated multiplication), and the
@@ -271,116 +278,102 @@ example : ∀ re ∈ exProg, EqOk toyExact exMat.ncols (indexOf exMat.ncols (-2 
 example : fBody toyT exProg exMat (indexOf 3 (-2 + 1)) = ⟨2, 3, [1000, 2000, 6500, -1500, 5000, 6000]⟩ := by decide
 example : pBody toy8 exProg exMat (-2) = (⟨2, 3, [1000, 2000, 6500, -1500, 5000, 6000]⟩, false) := by decide
 
-/-! ## The `solve_t` loop -/
+/-! ## The `solve_t` loop and the whole `solve_t` -/
 
 section Loop
 variable {σ V : Type}
 
-/-- **The template's loop is the Python loop on finite data.**  At a period that passed the index checks, with the
-    rows read by the compiled loop being the variables Python checks, and on any set `Inv` of states closed under one
-    evaluation pass on which all check and endogenous values are finite: from every pass number `k ≥ 1`, state and
-    previous check vector, the template's `do … end do` (with its `iteration - 1` adjustment on exhaustion) and M1's
-    `loop` deliver the same state, the same converged flag (status '.' vs 'F') and the same iteration count; the
-    error code is 0 once a pass has run (and the initial −1 if none has: `max_iter ≤ 0`). -/
+/-- **The template's loop is the Python loop on finite data.**  At a period that passed the index checks (so
+    `evaluate` runs the equations and returns 0), and on any set `Inv` of states closed under one evaluation pass on
+    which all check and endogenous values are finite: from every pass number `k ≥ 1`, state and previous check
+    vector, the template's `do … end do` (with its `iteration - 1` adjustment on exhaustion) and M1's `loop` deliver
+    the same state, the same converged flag (status '.' vs 'F') and the same iteration count; the error code is the
+    one held before the loop (0) if no pass runs, and 0 afterwards. -/
 theorem fortran_loop_eq_python_loop (W : Wrapped σ V) (c : Cfg) (o : Opts) (t : Int) (index : Nat)
-    (Inv : σ → Prop) (R : FiniteRegime W t index Inv) (hmin : c.minIter = o.minIter)
+    (Inv : σ → Prop) (R : FiniteRegime W index Inv) (hmin : c.minIter = o.minIter)
+    (hidx : index = (normT W.ncols t + 1).toNat)
+    (hev : ∀ u, evaluate W u index = (W.body u index, 0))
     (fuel k : Nat) (u : σ) (cur : V) (code : Int) (hk : 1 ≤ k) (hu : Inv u) (hcur : W.allFinite cur = true) :
     asOut (loop (toInterp W) o t fuel k u cur) (if fuel = 0 then code else 0)
-      = some (floop W.toEngine c index fuel k u cur code) :=
-  floop_eq_loop W c o t index Inv R hmin fuel k u cur code hk hu hcur
+      = some (floop W c index fuel k u cur code) :=
+  floop_eq_loop W c o t index Inv R hmin hidx hev fuel k u cur code hk hu hcur
 
-/-- **The whole `FortranEngine.solve_t` is `BaseModel.solve_t`, under explicit guards** (the `_partial` statement;
-    the unguarded one is false — see the three witnesses below).  Guards: `-n ≤ t < n`; the period has enough
-    lags and leads; a documented `errors` string; `max_iter ≥ 1`; the finite regime `R` (which contains
-    `aligned`: the rows the compiled loop reads are the variables Python checks); copying a column twice is copying
-    it once.  Then the world afterwards (values, status and iterations series) and the result (True / False /
-    exception class) coincide, for every option set otherwise. -/
-theorem fortran_solveT_eq_python_partial (W : Wrapped σ V) (o : Opts) (t : Int) (w : World σ) (Inv : σ → Prop)
-    (ht : -(W.ncols : Int) ≤ t) (ht' : t < W.ncols)
-    (hfeas : (W.lags : Int) < normT W.ncols t + 1 ∧ normT W.ncols t + 1 ≤ (W.ncols : Int) - W.leads)
-    (herr : o.errors ≠ .invalid) (hmax : 1 ≤ o.maxIter)
-    (R : FiniteRegime W t (normT W.ncols t + 1).toNat Inv)
+/-- **`FortranEngine.solve_t` is `BaseModel.solve_t`.**  For every engine, every option set with a documented
+    `errors` string (incl. `max_iter ≤ 0`, `min_iter > max_iter`, offsets in and out of the span), every period
+    `-n ≤ t < n` (feasible or not) and every world, on finite data (`R`: a set of states containing the seeded state,
+    closed under evaluation passes, on which the period's check and endogenous values are finite): the world
+    afterwards (values, status and iterations series) and the result (True / False / exception class) coincide.
+    `hcopy` is a law of the storage (copying a column twice is copying it once).  No guard excludes inputs of the
+    property any more: the three former exceptions (`max_iter = 0`, infeasible period, shifted convergence rows)
+    are repaired in fsic/fortran.py and covered here. -/
+theorem fortran_solveT_eq_python (W : Wrapped σ V) (o : Opts) (t : Int) (w : World σ) (Inv : σ → Prop)
+    (ht : -(W.ncols : Int) ≤ t) (ht' : t < W.ncols) (herr : o.errors ≠ .invalid)
+    (R : FiniteRegime W (normT W.ncols t + 1).toNat Inv)
     (hcopy : ∀ u d s, W.copyEndo (W.copyEndo u d s) d s = W.copyEndo u d s)
     (hseed : Inv (seed (toInterp W) o t w.user)) :
     wSolveT W o t w
       = ((Fsic.solveT (toInterp W) o W.ncols t w).1, ofResult (Fsic.solveT (toInterp W) o W.ncols t w).2) :=
-  wSolveT_eq_solveT W o t w Inv ht ht' hfeas herr hmax R hcopy hseed
+  wSolveT_eq_solveT W o t w Inv ht ht' herr R hcopy hseed
 
 end Loop
 
-/-! ### The unguarded statement is false of the current code: three witnesses
+/-! ### Instances on a toy model (formerly the three witnesses against the unguarded statement)
 
-A toy model over three periods whose state is a pair (Y, C): a pass sets `Y := 1` and moves `C` one step towards 3;
-two check vectors are close when equal; everything is finite.  `shift = true` makes the compiled loop read the rows the
-wrapper really passes (0-based numbers read 1-based: a constant cell and `Y`, never `C`). -/
+Three periods; the state is a pair (Y, C): a pass sets `Y := 1` and moves `C` one step towards 3; two check vectors
+are close when equal; everything is finite. -/
 
-def toyW (lags : Nat) (shift : Bool) : Wrapped (Nat × Nat) (Nat × Nat) where
+def toyW (lags : Nat) : Wrapped (Nat × Nat) (Nat × Nat) where
   ncols := 3
   lags := lags
   leads := 0
-  check u _ := if shift then (0, u.1) else u
+  check u _ := u
   allFinite _ := true
   close a b := a == b
   endoFinite _ _ := true
   zeroEndo u _ := u
   copyEndo u _ _ := u
   body u _ := (1, min (u.2 + 1) 3)
-  pyCheck u _ := u
 
 def toyWorld : World (Nat × Nat) := ⟨(0, 0), [.unsolved, .unsolved, .unsolved], [-1, -1, -1]⟩
 
-/-- The full statement: the wrapper's `solve_t` and the Python `solve_t` agree on every call. -/
-def FullSolveTAgree {σ V : Type} [DecidableEq σ] (W : Wrapped σ V) (o : Opts) (t : Int) (w : World σ) : Prop :=
+/-- The statement of `fortran_solveT_eq_python` at one call. -/
+def SolveTAgree {σ V : Type} (W : Wrapped σ V) (o : Opts) (t : Int) (w : World σ) : Prop :=
   wSolveT W o t w = ((Fsic.solveT (toInterp W) o W.ncols t w).1, ofResult (Fsic.solveT (toInterp W) o W.ncols t w).2)
 
 instance {σ V : Type} [DecidableEq σ] (W : Wrapped σ V) (o : Opts) (t : Int) (w : World σ) :
-    Decidable (FullSolveTAgree W o t w) := by unfold FullSolveTAgree; infer_instance
+    Decidable (SolveTAgree W o t w) := by unfold SolveTAgree; infer_instance
 
-/-- With the guards it holds on the toy model (an instance of the partial theorem): 4 passes, status '.'. -/
-example : FullSolveTAgree (toyW 0 false) {} 1 toyWorld ∧
-    wSolveT (toyW 0 false) {} 1 toyWorld = (⟨(1, 3), [.unsolved, .solved, .unsolved], [-1, 4, -1]⟩, .ret true) := by
+/-- convergence at pass 4, status '.' -/
+example : SolveTAgree (toyW 0) {} 1 toyWorld ∧
+    wSolveT (toyW 0) {} 1 toyWorld = (⟨(1, 3), [.unsolved, .solved, .unsolved], [-1, 4, -1]⟩, .ret true) := by
   decide
 
-/-- Convergence rows passed 0-based: the compiled loop stops at pass 2 (it never looks at `C`), Python at pass 4. -/
-theorem fortran_solveT_false_at_shifted_check : ¬ FullSolveTAgree (toyW 0 true) {} 1 toyWorld := by decide
-
-example : (wSolveT (toyW 0 true) {} 1 toyWorld).1.iters = [-1, 2, -1] ∧
-    (Fsic.solveT (toInterp (toyW 0 true)) {} 3 1 toyWorld).1.iters = [-1, 4, -1] := by decide
-
-/-- `max_iter = 0`: the template leaves `error_code = -1`, the wrapper raises FortranEngineError and stamps nothing;
-    Python records 'F', 0 iterations and returns False. -/
-theorem fortran_solveT_false_at_max_iter_zero :
-    ¬ FullSolveTAgree (toyW 0 false) { maxIter := 0, failRaise := false } 1 toyWorld := by decide
-
-example : wSolveT (toyW 0 false) { maxIter := 0, failRaise := false } 1 toyWorld = (toyWorld, .fortranEngineError) ∧
-    Fsic.solveT (toInterp (toyW 0 false)) { maxIter := 0, failRaise := false } 3 1 toyWorld
+/-- `max_iter = 0`: 'F', 0 iterations, False — on both sides. -/
+example : SolveTAgree (toyW 0) { maxIter := 0, failRaise := false } 1 toyWorld ∧
+    wSolveT (toyW 0) { maxIter := 0, failRaise := false } 1 toyWorld
       = (⟨(0, 0), [.unsolved, .failed, .unsolved], [-1, 0, -1]⟩, .ret false) := by decide
 
-/-- A period without enough lags (`lags = 1`, `t = 0`): the template returns code 13, which the wrapper's `solve_t`
-    does not dispatch on — FortranEngineError. -/
-theorem fortran_solveT_false_at_infeasible_period : ¬ FullSolveTAgree (toyW 1 false) {} 0 toyWorld := by decide
+/-- A period without enough lags (`lags = 1`, `t = 0`): IndexError, nothing changes — on both sides. -/
+example : SolveTAgree (toyW 1) {} 0 toyWorld ∧ wSolveT (toyW 1) {} 0 toyWorld = (toyWorld, .indexError) := by decide
 
-example : wSolveT (toyW 1 false) {} 0 toyWorld = (toyWorld, .fortranEngineError) := by decide
-
-/-- What the compiled loop reads for the rows the wrapper passes: `conv` holds `names.index(x)` (0-based); the
-    template reads those numbers as 1-based rows, Python reads the variables themselves (row `r + 1`).  So the loop
-    checks, for every variable, the one stored one position earlier. -/
-theorem fortran_check_rows_shifted {F4 F8 : Type} (T : Tower F4 F8) (S : Spec F8) (rows : List Nat)
-    (u : Mat F8) (index : Nat) :
-    (specWrapped T { S with conv := rows.map (· + 1) }).check u index
-      = (specWrapped T { S with conv := rows }).pyCheck u index := by
-  simp [specWrapped, List.map_map, Function.comp_def]
-
-/-- …and row number 0 is the last row of the previous column (the cell before the column in memory). -/
-theorem fortran_row_zero_alias {F : Type} (s : Mat F) (g : F) (c : Nat) :
-    s.fget g 0 ((c : Int) + 1) = s.fget g (s.nrows : Int) (c : Int) := by
-  have : offsetOf s.nrows 0 ((c : Int) + 1) = offsetOf s.nrows (s.nrows : Int) (c : Int) := by
-    unfold offsetOf
-    have h : ((c : Int) + 1 - 1) = c := by omega
-    rw [h, Int.sub_mul]
-    omega
-  unfold Mat.fget
-  rw [this]
+/-- **The rows the compiled loop reads are the variables Python checks.**  The wrapper passes
+    `names.index(x) + 1`; for a variable at 0-based position `r` of `NAMES`, a period `-n ≤ t < n` and
+    `index = t + 1` (normalised), `solved_values(r + 1, index)` is the cell `self._x[t]`. -/
+theorem fortran_check_rows_aligned {F4 F8 : Type} (T : Tower F4 F8) (S : Spec F8) (u : Mat F8) (t : Int)
+    (ht : -(u.ncols : Int) ≤ t) (ht' : t < u.ncols) :
+    ((specWrapped T S).check u (indexOf u.ncols (t + 1)).toNat).map some
+      = (S.conv.map fun r => u.pyGet (T.o8.ofInt 0) r t) := by
+  have hlo : 1 ≤ indexOf u.ncols (t + 1) := by unfold indexOf; split <;> omega
+  have hhi : indexOf u.ncols (t + 1) ≤ u.ncols := by unfold indexOf; split <;> omega
+  have hcast : (((indexOf u.ncols (t + 1)).toNat : Nat) : Int) = indexOf u.ncols (t + 1) := by omega
+  simp only [specWrapped, Spec.passed, List.map_map]
+  apply List.map_congr_left
+  intro r _
+  have := fortran_index_rewrite_cell u (T.o8.ofInt 0) r t 0 ht ht' (by simpa using hlo) (by simpa using hhi)
+  simp only [Int.add_zero] at this
+  simp only [Function.comp, hcast, this]
+  push_cast
+  rfl
 
 /-! ## `solve` -/
 
@@ -392,6 +385,105 @@ theorem fortran_solve_eq_fold {σ V : Type} (E : Engine σ V) (c : Cfg) (ts : Li
   have := fold_running E c ts u []
   simp only [List.nil_append] at this
   exact this.symm
+
+section Solve
+variable {σ V : Type}
+
+/-- **The wrapper's `solve` over resolved positions is M1's period loop.**  The template solves every period first
+    and the wrapper stamps statuses afterwards; Python interleaves the two.  On finite data (`G`: a set of states
+    closed under evaluation passes and offset copies at every period) the final world and the result coincide:
+    the flags for the solved periods, or the exception class of the first period that raises, with every later
+    period untouched. -/
+theorem fortran_solve_eq_python_solveList (W : Wrapped σ V) (o : Opts) (ps : List Nat) (w : World σ)
+    (Inv : σ → Prop) (G : GlobalRegime W Inv) (hu : Inv w.user) (hps : ∀ p ∈ ps, p < W.ncols)
+    (herr : o.errors ≠ .invalid) (h0 : ¬ o.minIter > o.maxIter) :
+    wSolve W o ps w = ((solveList (toInterp W) o W.ncols ps w [] []).1,
+                        ofSolveResult (solveList (toInterp W) o W.ncols ps w [] []).2) := by
+  obtain ⟨ec, hec⟩ : ∃ ec, errorOption o.errors = some ec := by
+    cases he : o.errors <;> simp [errorOption] <;> exact absurd he herr
+  unfold wSolve
+  simp only [h0, if_false, hec]
+  rw [solveList_core W o ec h0 Inv G ps w [] [] hps hu]
+  unfold finishW
+  simp only [List.reverse_nil, List.nil_append]
+  split <;> simp_all
+
+theorem resolveBound_error (given : Option Loc) (dflt : Option Nat) (r : SolveResult)
+    (h : resolveBound given dflt = .error r) (hg : ¬ (given = some .other ∨ given = some .missing)) :
+    r = .spanIndexError := by
+  unfold resolveBound at h
+  cases given with
+  | none =>
+    cases dflt with
+    | none => simp at h; exact h.symm
+    | some i => simp at h
+  | some l => cases l <;> simp_all
+
+/-- **`FortranEngine.solve(start=, end=, …)` is `SolverMixin.solve`** on a non-empty span, finite data and
+    positions that come from the span. -/
+theorem fortran_solve_eq_python_solve (W : Wrapped σ V) (o : Opts) (start stop : Option Loc) (w : World σ)
+    (Inv : σ → Prop) (G : GlobalRegime W Inv) (hu : Inv w.user) (hn : 0 < W.ncols)
+    (hstop : ∀ i, stop = some (.pos i) → i < W.ncols) (herr : o.errors ≠ .invalid) :
+    wSolveFull W o start stop w
+      = ((Fsic.solve (toInterp W) o W.ncols W.lags W.leads start stop w).1,
+         ofSolveResult (Fsic.solve (toInterp W) o W.ncols W.lags W.leads start stop w).2) := by
+  unfold wSolveFull Fsic.solve
+  by_cases h0 : o.minIter > o.maxIter
+  · simp [h0, ofSolveResult, ofResult]
+  simp only [h0, if_false]
+  by_cases h1 : start = some .other ∨ start = some .missing
+  · simp [h1, ofSolveResult]
+  simp only [h1, if_false]
+  by_cases h2 : stop = some .other ∨ stop = some .missing
+  · simp [h2, ofSolveResult]
+  have hn' : ¬ W.ncols = 0 := by omega
+  simp only [h2, if_false, hn']
+  -- the two bounds
+  cases hs : resolveBound start (if W.lags < W.ncols then some W.lags else none) with
+  | error r =>
+    have : r = .spanIndexError := resolveBound_error _ _ r hs h1
+    subst this
+    cases resolveBound stop (if W.leads < W.ncols then some (W.ncols - 1 - W.leads) else none) <;>
+      simp [ofSolveResult]
+  | ok s0 =>
+    cases he : resolveBound stop (if W.leads < W.ncols then some (W.ncols - 1 - W.leads) else none) with
+    | error r =>
+      have : r = .spanIndexError := resolveBound_error _ _ r he h2
+      subst this
+      simp [ofSolveResult]
+    | ok e0 =>
+      simp only
+      have he0 : e0 < W.ncols := by
+        unfold resolveBound at he
+        cases stop with
+        | none =>
+          simp only at he
+          split at he
+          · rename_i i hi
+            split at hi <;> simp_all
+            omega
+          · simp at he
+        | some l =>
+          cases l with
+          | pos i => simp at he; subst he; exact hstop i rfl
+          | other => simp at he
+          | missing => simp at he
+      exact fortran_solve_eq_python_solveList W o (periodRange s0 e0) w Inv G hu
+        (by intro p hp; unfold periodRange at hp; simp at hp; obtain ⟨a, ha, rfl⟩ := hp; omega) herr h0
+
+/-- Two periods of the toy model through `solve`: both converge at pass 4 resp. 1. -/
+example : wSolveFull (toyW 0) {} none none toyWorld
+    = ((Fsic.solve (toInterp (toyW 0)) {} 3 0 0 none none toyWorld).1,
+       ofSolveResult (Fsic.solve (toInterp (toyW 0)) {} 3 0 0 none none toyWorld).2) := by decide
+
+example : wSolveFull (toyW 0) {} none none toyWorld
+    = (⟨(1, 3), [.solved, .solved, .solved], [4, 1, 1]⟩, .ok [0, 1, 2] [true, true, true]) := by decide
+
+/-- With `max_iter = 2` and `failures='raise'` the first period fails and the later ones are untouched. -/
+example : wSolveFull (toyW 0) { maxIter := 2 } none none toyWorld
+    = (⟨(1, 2), [.failed, .unsolved, .unsolved], [2, -1, -1]⟩, .err .nonConvergence) := by decide
+
+end Solve
 
 /-! ## Error codes -/
 
@@ -426,8 +518,10 @@ theorem error_codes_consistent :
     Generated.fortranFailureOptions = [("raise", failureOption true), ("ignore", failureOption false)] ∧
     Generated.fortranWrapperDispatch =
       [("_evaluate", 0, ""), ("_evaluate", 11, ""), ("_evaluate", 12, ""), ("_evaluate", 13, ""), ("_evaluate", 14, ""),
-       ("solve", 0, ""), ("solve", 21, "raise"), ("solve", 22, "skip"), ("solve", 31, "raise"), ("solve", 41, ""),
-       ("solve", 42, ""), ("solve_t", 0, ""), ("solve_t", 21, "raise"), ("solve_t", 22, "skip")] ∧
+       ("solve", 0, ""), ("solve", 11, ""), ("solve", 12, ""), ("solve", 13, ""), ("solve", 14, ""),
+       ("solve", 21, "raise"), ("solve", 22, "skip"), ("solve", 31, "raise"), ("solve", 41, ""), ("solve", 42, ""),
+       ("solve_t", 0, ""), ("solve_t", 11, ""), ("solve_t", 12, ""), ("solve_t", 13, ""), ("solve_t", 14, ""),
+       ("solve_t", 21, "raise"), ("solve_t", 22, "skip")] ∧
     (∀ d ∈ Generated.fortranWrapperDispatch, d.2.1 = 0 ∨ ∃ x ∈ Generated.fortranTemplateCodes, x.2.2 = d.2.1) := by
   decide
 
